@@ -130,6 +130,7 @@ Forms == Group1 \cup Group2 \cup Misc \cup Cmos \cup Rockwell
 
 \* NMOS anomaly documented by MOS: JMP (xxFF) fetches the high byte from xx00; an assembler may refuse it on the
 \* NMOS part.  The CMOS parts fixed this, there the statement is plainly legal.
+Skipped(cpu, form, ops) == FALSE
 Unjudged(cpu, form, ops) == cpu = "6502" /\ form.id = "JMP ind" /\ ops[1] % 256 = 255
 
 \* 151 documented NMOS opcodes; CMOS base adds 8 (zp) + BRA PHX PHY PLX PLY (5) + STZ 4 + TRB 2 + TSB 2 + BIT 3 +
